@@ -6,7 +6,7 @@ LAB=${LAB:-/tmp/lab}
 mkdir -p $LAB
 if [ ! -d $LAB/repo ]; then git -C /repo worktree add -q --detach $LAB/repo HEAD; fi
 git -C $LAB/repo checkout -q -- . ; git -C $LAB/repo clean -fdq; git -C $LAB/repo checkout -q --detach $(git -C /repo rev-parse HEAD)
-rsync -a --delete --exclude harness/target --exclude work --exclude replays --exclude .git --exclude evidence /verif/ $LAB/verif/
+rsync -a --delete --exclude harness/target --exclude work --exclude replays --exclude .git --exclude evidence --exclude states /verif/ $LAB/verif/
 mkdir -p $LAB/verif/evidence
 sed -i "s#\"/repo/#\"$LAB/repo/#g" $LAB/verif/harness/cgtv/Cargo.toml
 echo synced
